@@ -35,6 +35,8 @@ Ops == {Op("viewprofile", "webui", "admin", "read", FALSE),
         Op("certgen", "any", "never", "signed", FALSE),
         Op("authorize", "webui", "never", "signed", FALSE),
         Op("showtoken", "webui", "never", "signed", FALSE),
+        \* exchanging a CLI identity token (obtained earlier by that user) for a certificate-capable CLI session cookie
+        Op("clisend", "webui", "never", "signed", FALSE),
         Op("u2fsignreq", "any", "never", "tx2fa", TRUE),
         Op("webauthnbegin", "any", "never", "tx2fa", TRUE),
         Op("vippushstart", "any", "never", "tx2fa", TRUE),
@@ -118,7 +120,7 @@ Creds == {NoCred} \cup {Cred("cookie", "good", u, fs) : u \in Users, fs \in Cook
          \cup {Cred("kmcert", v, u, {}) : v \in {"good", "denied", "adminca"}, u \in {"alice", "root"}}
          \cup {Cred("ipcert", v, "svc", {}) : v \in {"inside", "outside", "outside_near", "loopback_xff"}}
 \* operations without a target parameter
-Untargeted == {"rolerefresh", "totpgen", "authorize", "showtoken", "u2fsignreq", "webauthnbegin", "vippushstart"}
+Untargeted == {"rolerefresh", "totpgen", "authorize", "showtoken", "clisend", "u2fsignreq", "webauthnbegin", "vippushstart"}
 InC06(p) == \E o \in Ops, c \in Creds, t \in {"self", "other"}, m \in {"GET", "POST"}, og \in {"none", "same", "cross"},
                wu \in {{"pw"}, {"u2f"}} :
                /\ (o.other \in {"always", "automation"} => t = "other")
